@@ -4,6 +4,8 @@ package main
 
 import (
 	"errors"
+	"runtime"
+	"sync"
 	"fmt"
 	"strings"
 	"time"
@@ -138,6 +140,154 @@ func runCase(run *hx.Run, class string, dir string, thr, level int, secret []byt
 	run.Case(class, fmt.Sprintf("rt %s %d %s %s %s", dir, thr, sec, psS, dsS), impl)
 }
 
+// runSwitch: ps1 in the clear, then BOTH sides enable encryption (as the login flow does after the encryption
+// response), then ps2. The reader is fed in chunks that are free to straddle the switch point.
+func runSwitch(run *hx.Run, dir string, thr, level int, secret []byte, chunks []int, ps1, ps2 []pay) {
+	d := proto.ServerBound
+	if dir == "c" {
+		d = proto.ClientBound
+	}
+	impl := hx.Guard(60*time.Second, func() string {
+		cc := &codecx.CaptureConn{}
+		w := netmc.NewWriter(cc, d, time.Second, level, logr.Discard())
+		if thr >= 0 {
+			if err := w.SetCompressionThreshold(thr); err != nil {
+				return "setup-err"
+			}
+		}
+		for _, p := range ps1 {
+			if _, err := w.Write(p.data); err != nil {
+				return "write-err"
+			}
+		}
+		if err := w.EnableEncryption(secret); err != nil {
+			return "setup-err"
+		}
+		for _, p := range ps2 {
+			if _, err := w.Write(p.data); err != nil {
+				return "write-err"
+			}
+		}
+		if err := w.Flush(); err != nil {
+			return "flush-err"
+		}
+		wire := append([]byte(nil), cc.Buf.Bytes()...)
+		rd := netmc.NewReader(&codecx.ChunkConn{Data: wire, Sizes: chunks}, d, time.Second, logr.Discard())
+		if thr >= 0 {
+			rd.SetCompressionThreshold(thr)
+		}
+		var got [][]byte
+		end := ""
+		for i := 0; i < len(ps1)+len(ps2)+3 && end == ""; i++ {
+			if i == len(ps1) {
+				if err := rd.EnableEncryption(secret); err != nil {
+					return "setup-err"
+				}
+			}
+			ctx, err := rd.ReadPacket()
+			if err != nil {
+				if errors.Is(err, netmc.ErrReadPacketRetry) {
+					continue
+				}
+				end = codecx.ErrClass(err)
+				break
+			}
+			got = append(got, ctx.Payload)
+		}
+		if end == "" {
+			end = "no-end"
+		}
+		return fmt.Sprintf("wire=%s read=%s end=%s", codecx.ShowPayload(wire), codecx.ShowList(got), end)
+	})
+	enc := func(ps []pay) (string, string) {
+		if len(ps) == 0 {
+			return "_", "_"
+		}
+		specs, ds := make([]string, len(ps)), make([]string, len(ps))
+		for i, p := range ps {
+			specs[i], ds[i] = p.spec, "-"
+			if thr >= 0 && len(p.data) >= thr {
+				ds[i] = hx.Hex(codecx.Deflate(level, p.data))
+			}
+		}
+		return strings.Join(specs, ","), strings.Join(ds, ",")
+	}
+	p1, d1 := enc(ps1)
+	p2, d2 := enc(ps2)
+	run.Case("sw", fmt.Sprintf("sw %s %d %s %s %s %s %s", dir, thr, hx.Hex(secret), p1, d1, p2, d2), impl)
+}
+
+// slowConn yields the processor on every write so that concurrently running encoders interleave.
+type slowConn struct{ codecx.CaptureConn }
+
+func (s *slowConn) Write(b []byte) (int, error) {
+	runtime.Gosched()
+	time.Sleep(20 * time.Microsecond)
+	return s.CaptureConn.Write(b)
+}
+
+// runConcurrent: several independent writer/reader pairs write at the same time (they share nothing but the
+// codec package's buffer pools). Every stream must still round-trip; each is reported as an ordinary `rt` case.
+func runConcurrent(run *hx.Run, r *hx.Rng, writers int) {
+	type res struct{ class, op, impl string }
+	out := make([]res, writers)
+	var wg sync.WaitGroup
+	type job struct {
+		thr, level int
+		ps         []pay
+	}
+	jobs := make([]job, writers)
+	for i := range jobs {
+		n := 3 + r.Intn(4)
+		ps := make([]pay, n)
+		for j := range ps {
+			ps[j] = mkPay(r, 5000+r.Intn(30000), r.Chance(1, 4)) // mostly incompressible: compressed bodies > 4 KiB
+		}
+		jobs[i] = job{256, 1 + r.Intn(9), ps}
+	}
+	for i, j := range jobs {
+		wg.Add(1)
+		go func() {
+			defer wg.Done()
+			impl := hx.Guard(60*time.Second, func() string {
+				cc := &slowConn{}
+				w := netmc.NewWriter(cc, proto.ClientBound, time.Second, j.level, logr.Discard())
+				w.SetCompressionThreshold(j.thr)
+				for _, p := range j.ps {
+					if _, err := w.Write(p.data); err != nil {
+						return "write-err"
+					}
+				}
+				w.Flush()
+				wire := append([]byte(nil), cc.Buf.Bytes()...)
+				rd := netmc.NewReader(&codecx.ChunkConn{Data: wire, Sizes: []int{4096}}, proto.ClientBound, time.Second, logr.Discard())
+				rd.SetCompressionThreshold(j.thr)
+				var got [][]byte
+				end := "no-end"
+				for k := 0; k < len(j.ps)+3; k++ {
+					ctx, err := rd.ReadPacket()
+					if err != nil {
+						end = codecx.ErrClass(err)
+						break
+					}
+					got = append(got, ctx.Payload)
+				}
+				return fmt.Sprintf("wire=%s read=%s end=%s", codecx.ShowPayload(wire), codecx.ShowList(got), end)
+			})
+			specs, ds := make([]string, len(j.ps)), make([]string, len(j.ps))
+			for k, p := range j.ps {
+				specs[k] = p.spec
+				ds[k] = hx.Hex(codecx.Deflate(j.level, p.data))
+			}
+			out[i] = res{"rt/concurrent-writers", fmt.Sprintf("rt c %d - %s %s", j.thr, strings.Join(specs, ","), strings.Join(ds, ",")), impl}
+		}()
+	}
+	wg.Wait()
+	for _, o := range out {
+		run.Case(o.class, o.op, o.impl)
+	}
+}
+
 var chunkPatterns = [][]int{{1}, {2}, {1, 2, 3}, {7, 1, 100}, {5}, {16}, {4096}, {1 << 20}, {3, 4096, 1}, {65536, 1}}
 
 func main() {
@@ -205,6 +355,23 @@ func main() {
 			class += "+enc"
 		}
 		runCase(run, class, dir, thr, level, secret, hx.Pick(r, chunkPatterns), ps)
+	}
+	// encryption switched on in mid-stream, chunk boundaries free to straddle the switch
+	for i := 0; i < run.Scale(150, 2000); i++ {
+		thr := hx.Pick(r, []int{-1, 0, 1, 64, 256})
+		mkN := func(n int) []pay {
+			ps := make([]pay, n)
+			for j := range ps {
+				ps[j] = mkPay(r, 1+r.Intn(400), r.Bool())
+			}
+			return ps
+		}
+		runSwitch(run, hx.Pick(r, []string{"s", "c"}), thr, r.Intn(11)-1, r.Bytes(16),
+			hx.Pick(r, chunkPatterns), mkN(r.Intn(4)), mkN(1+r.Intn(4)))
+	}
+	// independent encoders running at the same time (shared buffer pools must not leak between them)
+	for i := 0; i < run.Scale(4, 60); i++ {
+		runConcurrent(run, r, 6)
 	}
 	// large frames around the 2^21-1 cap (few: they are expensive)
 	big := []int{1<<21 - 1, 1<<21 - 2, 1<<21 - 4, 1 << 20, 1<<21 - 1 - 3}
